@@ -209,7 +209,7 @@ pub struct BoxWorld {
     plan: Vec<Event>,
     planned: bool,
     /// C17: error text of rejected deliveries, keyed by the lengths the receiver saw
-    err_texts: std::collections::BTreeMap<(usize, usize), String>,
+    err_texts: std::collections::BTreeMap<(String, usize, usize), String>,
 }
 
 pub fn install_rng(seed: u64) {
@@ -1079,7 +1079,13 @@ impl World for BoxWorld {
                 // rejected ciphertext: two rejections of deliveries with the same lengths
                 // must read the same
                 if let (Ok(None), Some(t)) = (&res, &err_text) {
-                    let key = (d.combined.len(), d.body.len());
+                    // compared only within one fault kind (and fill value): a different error for a
+                    // different *class* of rejection is not evidence of leaked data
+                    let fk = match fault {
+                        Fault::Fill { value, .. } => format!("{}:{}", fault.kind(), value),
+                        _ => fault.kind().to_string(),
+                    };
+                    let key = (fk, d.combined.len(), d.body.len());
                     match self.err_texts.get(&key) {
                         Some(prev) if prev != t => {
                             out.violate(
